@@ -266,6 +266,9 @@ class NodeV(object):
         return 'Node(%s)' % (self.idx,)
 
 
+NODEID_TRUTHY = None
+
+
 class NodeId(object):
     """node.id of a universe node (ids are distinct per node)"""
     __slots__ = ('idx',)
@@ -277,6 +280,15 @@ class NodeId(object):
         if isinstance(o, NodeId):
             return Eq(self.idx, o.idx)
         return False
+
+    def truth(self, I):
+        # Node ids are arbitrary hashable values (TCPNode: 'host:port', custom nodes: anything, including 0 or ''): truthiness is not known
+        import z3 as _z3
+        global NODEID_TRUTHY
+        if NODEID_TRUTHY is None:
+            NODEID_TRUTHY = _z3.Function('nodeid_truthy', _z3.IntSort(), _z3.BoolSort())
+        from .values import to_z3 as _to
+        return NODEID_TRUTHY(_to(self.idx))
 
     def __repr__(self):
         return 'NodeId(%s)' % (self.idx,)
